@@ -201,7 +201,111 @@ def r17_3(prog: Program, chk: Check) -> None:
     chk.ob("R17.3", "format_strings::check_string_format::bytes-pattern-parser", "isinstance(format_str, bytes)" in t and "from_bytes_pattern" in t and "from_pattern" in t, prog.site("format_strings", fn), "bytes templates must be parsed with the bytes regex")
 
 
+def _expand_in(test: ast.AST) -> ast.AST:
+    """`K in (a, b)` with a constant K  ->  `a == K or b == K` (same truth value)."""
+    if isinstance(test, ast.Compare) and len(test.ops) == 1 and isinstance(test.ops[0], ast.In) and isinstance(test.left, ast.Constant) and isinstance(test.comparators[0], (ast.Tuple, ast.List, ast.Set)):
+        vals = [ast.Compare(left=e, ops=[ast.Eq()], comparators=[test.left]) for e in test.comparators[0].elts]
+        return ast.BoolOp(op=ast.Or(), values=vals) if len(vals) > 1 else vals[0]
+    if isinstance(test, ast.BoolOp):
+        return ast.BoolOp(op=test.op, values=[_expand_in(v) for v in test.values])
+    if isinstance(test, ast.UnaryOp) and isinstance(test.op, ast.Not):
+        return ast.UnaryOp(op=ast.Not(), operand=_expand_in(test.operand))
+    return test
+
+
+def r17_4(prog: Program, chk: Check) -> None:
+    chk.rule(
+        "R17.4",
+        "argument consumption of a %-specifier: `*` as width and `*` as precision each take one argument, before the value; %% takes none",
+        floor=8,
+    )
+    from ..guarded import Evaluator, Trace, truth_table
+
+    m = "format_strings"
+    fn = prog.func(m, "PercentFormatString.get_serial_specifiers")
+    loop = next((n for n in walk_no_nested(fn) if isinstance(n, ast.For) and norm(n.iter) == "self.specifiers" and isinstance(n.target, ast.Name)), None)
+    if loop is None:
+        raise AnchorError("get_serial_specifiers: loop over self.specifiers not found")
+    v = loop.target.id
+
+    def atom_of(test: ast.AST):
+        if isinstance(test, ast.Compare) and len(test.ops) == 1 and isinstance(test.ops[0], (ast.Eq, ast.NotEq)):
+            l, r = test.left, test.comparators[0]
+            if isinstance(l, ast.Constant):
+                l, r = r, l
+            if isinstance(r, ast.Constant) and isinstance(l, ast.Attribute) and norm(l.value) == v:
+                pol = isinstance(test.ops[0], ast.Eq)
+                if l.attr == "field_width" and r.value == "*":
+                    return "W_STAR", pol
+                if l.attr == "precision" and r.value == "*":
+                    return "P_STAR", pol
+                if l.attr == "conversion_type" and r.value == "%":
+                    return "PERCENT", pol
+        return None
+
+    def action_of(st: ast.stmt, tr: Trace):
+        if isinstance(st, ast.Expr) and isinstance(st.value, ast.Yield) and st.value.value is not None:
+            y = st.value.value
+            if isinstance(y, ast.Call) and last_attr(y) == "StarConversionSpecifier":
+                return ["STAR"]
+            if norm(y) == v:
+                return ["VALUE"]
+            return ["?" + norm(y)]
+        if isinstance(st, ast.Expr) and isinstance(st.value, ast.YieldFrom):
+            return ["?" + norm(st.value)]
+        return None
+
+    class Ev(Evaluator):
+        def truth(self, test, val):  # type: ignore[override]
+            return super().truth(_expand_in(test), val)
+
+    ev = Ev(atom_of, action_of)
+    table = truth_table(loop.body, ["W_STAR", "P_STAR", "PERCENT"], {}, ev)
+    for valuation, seqs in table.items():
+        val = dict(valuation)
+        want = ["STAR"] * (int(val["W_STAR"]) + int(val["P_STAR"])) + ([] if val["PERCENT"] else ["VALUE"])
+        label = ",".join(f"{k}={'1' if b else '0'}" for k, b in valuation)
+        chk.ob("R17.4", f"{m}::PercentFormatString.get_serial_specifiers::{label}", seqs == [want], prog.site(m, loop),
+               f"arguments consumed for ({label}) are {seqs}; CPython consumes {want} (each `*` is one int argument, taken before the value)",
+               witness={"unknown_tests": sorted(ev.unknown_tests)})
+
+
+def r17_5(prog: Program, chk: Check) -> None:
+    chk.rule(
+        "R17.5",
+        "str.format field names: a name is a positional index exactly when it is all decimal characters (CPython get_integer): "
+        "int() is applied only under an isdecimal() test of the same string, never as a trial conversion",
+        floor=2,
+    )
+    m = "format_strings"
+    fn = prog.func(m, "_parse_replacement_field")
+    ints = [c for c in calls_in(fn, "int") if isinstance(c.func, ast.Name) and c.args]
+    if not ints:
+        raise AnchorError("_parse_replacement_field: no int() conversion of the field name")
+    from .common import guards_of
+
+    for c in ints:
+        subject = norm(c.args[0])
+        gs = guards_of(c, fn)
+        guarded = any(
+            inbody and isinstance(t, ast.Call) and isinstance(t.func, ast.Attribute) and t.func.attr == "isdecimal" and norm(t.func.value) == subject
+            for t, inbody in gs
+        )
+        chk.ob("R17.5", f"{m}::_parse_replacement_field::int({subject})::under-isdecimal", guarded, prog.site(m, c),
+               f"int({subject}) must be reached only when {subject}.isdecimal(): isdigit() admits superscripts that int() rejects, an ASCII class misses the decimal digits CPython accepts")
+        p = parent(c)
+        in_try = False
+        while p is not None and p is not fn:
+            if isinstance(p, ast.Try) and any(c in list(ast.walk(b)) for b in p.body):
+                in_try = True
+            p = parent(p)
+        chk.ob("R17.5", f"{m}::_parse_replacement_field::int({subject})::not-trial-conversion", not in_try, prog.site(m, c),
+               "a try/int()/except classification accepts '+1', ' 0', '0_0', '-1' as indices; CPython looks those up as keyword names")
+
+
 def run(prog: Program, chk: Check) -> None:
     r17_1(prog, chk)
     r17_2(prog, chk)
     r17_3(prog, chk)
+    r17_4(prog, chk)
+    r17_5(prog, chk)
